@@ -24,6 +24,9 @@ func init() {
 	registry["C02"] = func(rep *core.Report) {
 		var shards []string
 		for _, t := range conTypes() {
+			if t.c01only {
+				continue
+			}
 			for ii := range t.inits {
 				shards = append(shards, fmt.Sprintf("%s:%d", t.name, ii))
 			}
@@ -226,6 +229,9 @@ func c02worker(arg string) {
 		if len(p) == 2 && len(p[0]) == 2 && len(p[1]) == 2 && !thorough && replayReq == nil {
 			continue // 2 x 2 programs: thorough tier (and replays)
 		}
+		if only := os.Getenv("VERIF_C02_ONLY"); only != "" && fmt.Sprint([][]int(p)) != only {
+			continue // debugging aid: restrict a worker to one program
+		}
 		if containsBad(p) {
 			st.Skipped++
 			continue
@@ -342,6 +348,9 @@ func c02worker(arg string) {
 			got := rec.outcome(p)
 			outcomes[got] = true
 			sched := append([]int16{}, x.Schedule()...)
+			if os.Getenv("VERIF_C02_ONLY") != "" {
+				fmt.Fprintln(os.Stderr, "schedule:", sched, got)
+			}
 			if len(states) < 2000000 {
 				states[fmt.Sprint(st.Scenarios, got, len(sched))] = struct{}{}
 			}
@@ -383,6 +392,12 @@ func c02worker(arg string) {
 		}
 		if len(outcomes) <= 1 && len(p) > 1 && !violated {
 			st.NoCollision++
+		}
+		if os.Getenv("VERIF_C02_ONLY") != "" {
+			for o := range outcomes {
+				fmt.Fprintln(os.Stderr, "outcome:", o)
+			}
+			fmt.Fprintln(os.Stderr, "sequential:", seqOut, "schedules:", e.Execs, "complete:", e.Complete)
 		}
 		if st.Scenarios%400 == 1 && len(st.Samples) < 3 {
 			st.Samples = append(st.Samples, fmt.Sprintf("%s init=%s program: %s  (%d schedules, %d distinct outcomes, %d sequential orders)", t.name, init.name, p.String(t), e.Execs, len(outcomes), len(ords)))
